@@ -21,6 +21,12 @@ def run_jobs(prop, jobs, timeout_s, nproc=None):
     pending = list(range(len(jobs)))
     running = {}
     try:
+        # an external `timeout` / kill of the check must not leave workers behind: turn SIGTERM into an exit that runs the clean-up below
+        import signal
+        signal.signal(signal.SIGTERM, lambda *_a: sys.exit(143))
+    except (ValueError, OSError):
+        pass
+    try:
         while pending or running:
             while pending and len(running) < nproc:
                 i = pending.pop(0)
